@@ -102,6 +102,7 @@ type FuncSpec struct {
 	Inline    bool
 	MayPanic  bool
 	NoPanic   bool
+	ZeroSafe  bool // header observers (Height, Time, Hash, ...) are only ever invoked on headers known to be non-zero
 	Trusted   bool // contract assumed, body not verified (listed as assumption)
 	Ghosts    []GhostBind
 	Asserts   []Clause // named cut assertions placed by "assert at <marker>" (unused for now)
@@ -603,7 +604,7 @@ var clauseKeywords = map[string]bool{
 	"func": true, "iface": true, "field": true, "extern": true, "pure": true, "predicate": true, "ghost": true, "axiom": true,
 	"lockinv": true, "protected": true, "chaninv": true, "atomic": true,
 	"requires": true, "ensures": true, "defines": true, "assumes": true, "modifies": true, "decreases": true, "loop": true, "invariant": true,
-	"effect": true, "unreachable": true, "rely": true, "before": true, "resets": true, "inline": true, "maypanic": true, "nopanic": true, "trusted": true, "stepinv": true, "props": true, "function": true,
+	"effect": true, "unreachable": true, "rely": true, "before": true, "resets": true, "inline": true, "maypanic": true, "nopanic": true, "zerosafe": true, "trusted": true, "stepinv": true, "props": true, "function": true,
 }
 
 type rawLine struct {
@@ -818,6 +819,8 @@ func parseSpecFile(path, pkg string) (*SpecFile, error) {
 			cur.MayPanic = true
 		case "nopanic":
 			cur.NoPanic = true
+		case "zerosafe":
+			cur.ZeroSafe = true
 		case "trusted":
 			cur.Trusted = true
 		case "pure":
